@@ -140,10 +140,6 @@ def optTrue : Option Bool → Bool
   | some true => true
   | _ => false
 
-def crTrue : Option CR → Bool
-  | some r => r.clash
-  | none => false
-
 def nodeReasons (M : Module) (t : Ty) : List String :=
   match t with
   | .ref _ _ => if optTrue (derefFatal M t) then ["unknown-type"] else []
@@ -151,7 +147,7 @@ def nodeReasons (M : Module) (t : Ty) : List String :=
   | .constr _ k r h a =>
     (if dupNames [] ((r ++ a).map Comp.name) then ["dup-identifier"] else []) ++
     (match comps M r h a with
-     | some ss => if crTrue (checkDistinct M (k == .sequence) ss) then ["tag-clash"] else []
+     | some ss => if optTrue (checkDistinct M (k == .sequence) ss) then ["tag-clash"] else []
      | none => []) ++
     (match fixConstr M r a with
      | some fc => (if fc.fImplicit then ["implicit-choice"] else []) ++
@@ -167,13 +163,12 @@ def reasons (M : Module) : List String :=
 
 /-- `Dom_C11` as evaluated by the driver (same definition as Props/C11.lean, restated here
     because the driver cannot import the proof files): no fuel exhaustion, enumeration
-    numbering of the code = X.680 numbering, no TM_RECURSION cut -/
+    numbering of the code = X.680 numbering -/
 def enumAgrees : Ty → Bool
   | .enum _ r _ a => (fixEnum r a).1 == Asn1c.Spec.Fix.enumVals r a
   | _ => true
 
-def domC11 (M : Module) : Bool :=
-  (match fixerRun M with | some r => !r.cut | none => false) && M.nodes.all enumAgrees
+def domC11 (M : Module) : Bool := (fixerRun M).isSome && M.nodes.all enumAgrees
 
 /-- `WfModule` of Props/C11.lean -/
 def wfModule (M : Module) : Bool :=
@@ -233,9 +228,8 @@ def run : Handler
       match fixerRun M with
       | none => "loop" ++ dom
       | some r =>
-        let cut := if r.cut then " cut" else ""
-        if r.clash then "reject " ++ " ".intercalate (reasons M) ++ cut ++ dom
-        else "accept" ++ cut ++ dom
+        if r then "reject " ++ " ".intercalate (reasons M) ++ dom
+        else "accept" ++ dom
   | "fixdump" :: toks => some <|
     match pModule toks with
     | none => bad
